@@ -512,6 +512,134 @@ namespace plan
       b->r.k = mpq_class(10);
       assert_stmt(b);
     }
+    else if (n == "ublock")
+    { // a self-contained block that is solvable BY CONSTRUCTION and only through unification (C02 P7(b), C03):
+      //   predicate U(real a) { a >= 100.0; }            (or a rule no value satisfies: `a <= a - 1.0;`)
+      //   fact f = new U();  f.a in [lf, hf];   goal g = new U();  g.a in [lg, hg];       [lf,hf] and [lg,hg] intersect, both below 100
+      // the goal cannot be activated (its rule fails for every value it may take), the fact's argument can be made equal to the
+      // goal's: the only plan unifies g with f. Flavours: the fact's argument is a bounded global variable; a second fact whose
+      // range misses the goal's; the goal is the sub-goal of another predicate's rule (`predicate V(real b) { goal s = new U(a:b); }`).
+      // The facts are stated before the goal (see KF-P8). `block_text` is the block alone, which plan_main hands to a fresh solver.
+      if (m.unit != 0 || m.preds.size() >= 6 || !block_text.empty())
+        return;
+      const long flavour = modn(op.arg(0), 4), how = modn(op.arg(5), 3);
+      const int pu = static_cast<int>(m.preds.size());
+      PredD u;
+      u.name = "P" + std::to_string(pu);
+      const std::string a = "a" + std::to_string(pu) + "_0";
+      u.rparams.push_back(a);
+      {
+        auto rb = std::make_shared<B>();
+        rb->k = B::REL;
+        rb->l.t.push_back({mpq_class(1), Path{a}});
+        if (flavour == 1)
+          rb->rel = LEQ, rb->r.t.push_back({mpq_class(1), Path{a}}), rb->r.k = -1;
+        else
+          rb->rel = GEQ, rb->r.k = 100;
+        auto it = std::make_shared<BodyItem>();
+        it->k = BodyItem::ASSERT;
+        it->b = rb;
+        u.body.push_back(it);
+      }
+      m.preds.push_back(u);
+      std::string decls = "predicate " + u.name + "(real " + a + ") {\n  " + btext(u.body[0]->b) + ";\n}\n";
+      int pv = -1;
+      std::string bpar;
+      if (flavour == 3)
+      {
+        pv = static_cast<int>(m.preds.size());
+        PredD v;
+        v.name = "P" + std::to_string(pv);
+        bpar = "a" + std::to_string(pv) + "_0";
+        v.rparams.push_back(bpar);
+        auto sg = std::make_shared<BodyItem>();
+        sg->k = BodyItem::SUBGOAL;
+        sg->pred = pu;
+        sg->local = "s" + std::to_string(m.n_locals++);
+        Arg sa;
+        sa.param = a;
+        sa.val.t.push_back({mpq_class(1), Path{bpar}});
+        sg->args.push_back(sa);
+        v.body.push_back(sg);
+        m.preds.push_back(v);
+        decls += "predicate " + v.name + "(real " + bpar + ") {\n  goal " + sg->local + " = new " + u.name + "(" + a + ":" + bpar + ");\n}\n";
+      }
+      const mpq_class lg(modn(op.arg(4), 4)), wg(modn(op.arg(2), 7));
+      const mpq_class hg = lg + wg;
+      mpq_class lf = lg + mpq_class(op.arg(1) < 0 ? -modn(op.arg(1), 6) : modn(op.arg(1), static_cast<size_t>(wg.get_num().get_si()) + 1));
+      const mpq_class hf = (lf > lg ? lf : lg) + mpq_class(modn(op.arg(3), 5));
+      std::string stmts_text;
+      const size_t first_stmt = m.stmts.size();
+      auto bound = [&](const Path &p, int rel, const mpq_class &k)
+      {
+        auto b = std::make_shared<B>();
+        b->k = B::REL;
+        b->rel = rel;
+        b->l.t.push_back({mpq_class(1), p});
+        b->r.k = k;
+        assert_stmt(b);
+      };
+      auto formula = [&](bool fact, int pred, const std::string &argtext, const std::vector<Arg> &args)
+      {
+        auto it = std::make_shared<BodyItem>();
+        it->k = BodyItem::SUBGOAL;
+        it->pred = pred;
+        it->is_fact = fact;
+        it->local = (fact ? "f" : "g") + std::to_string(m.n_formulas++);
+        it->args = args;
+        Stmt st;
+        st.k = Stmt::FORMULA;
+        st.item = it;
+        st.text = std::string(fact ? "fact " : "goal ") + it->local + " = new " + m.preds[pred].name + "(" + argtext + ");";
+        m.stmts.push_back(st);
+        ++order;
+        for (auto &pa : m.preds[pred].rparams)
+          top.nums.push_back({it->local, pa});
+        return it->local;
+      };
+      // the facts
+      if (flavour == 2 && (op.arg(6) & 1))
+      { // a fact the goal cannot be unified with, stated first
+        const std::string f2 = formula(true, pu, "", {});
+        bound({f2, a}, GEQ, hg + 10), bound({f2, a}, LEQ, hg + 12);
+      }
+      std::string f;
+      if (how == 2)
+      { // the fact's argument is a bounded global variable
+        Op ro;
+        ro.name = "real";
+        ro.a = {0};
+        apply(ro);
+        const std::string x = m.reals.back();
+        planted[x] = lf > lg ? lf : lg;
+        bound({x}, GEQ, lf), bound({x}, LEQ, hf);
+        Arg fa;
+        fa.param = a;
+        fa.val.t.push_back({mpq_class(1), Path{x}});
+        f = formula(true, pu, a + ":" + x, {fa});
+        m.mention_root(x);
+      }
+      else
+      {
+        f = formula(true, pu, "", {});
+        if (how == 1)
+          bound({f, a}, GEQ, lf), bound({f, a}, LEQ, hf);
+      }
+      if (flavour == 2 && !(op.arg(6) & 1))
+      {
+        const std::string f2 = formula(true, pu, "", {});
+        bound({f2, a}, GEQ, hg + 10), bound({f2, a}, LEQ, hg + 12);
+      }
+      // the goal
+      const std::string g = formula(false, flavour == 3 ? pv : pu, "", {});
+      const Path ga = {g, flavour == 3 ? bpar : a};
+      bound(ga, GEQ, lg), bound(ga, LEQ, hg);
+      if (how == 0)
+        bound({f, a}, GEQ, lf), bound({f, a}, LEQ, hf);
+      for (size_t i = first_stmt; i < m.stmts.size(); ++i)
+        stmts_text += m.stmts[i].text + "\n";
+      block_text = decls + stmts_text;
+    }
     else if (n == "horizon")
     { // horizon <= k keeps timelines tight enough for conflicts
       auto b = std::make_shared<B>();
